@@ -1694,7 +1694,12 @@ func calleeShortName(c *ssa.CallCommon) string {
 	if c.IsInvoke() {
 		return c.Method.Name()
 	}
-	if _, ok := c.Value.(*ssa.Builtin); ok {
+	if b, ok := c.Value.(*ssa.Builtin); ok {
+		// append and copy are program points a contract may anchor an assertion to
+		// (assert@call append#k); the other builtins get no ordinal
+		if b.Name() == "append" || b.Name() == "copy" {
+			return b.Name()
+		}
 		return ""
 	}
 	if f := c.StaticCallee(); f != nil {
